@@ -673,6 +673,7 @@ def drive_c07(ctx):
              [_frame.marshal(_body.ContentBody(b'abc\xce' + b'\xce' * 20), 1)]
     for b in short + longer + [x for x in frames if len(x) <= 300][:20 if ctx.quick else 200]:
         rec.add('CutSet', ['C07'], nt=True, sigx='reused-buffer', **actions.cutset(b, None, reuse=True))
+    stale_header_pairs(ctx, ['C07'])
 
 
 # ---------------------------------------------------------------------------
@@ -1251,6 +1252,7 @@ def drive_c06(ctx):
     for b in frames:
         for t in (TAILS if len(b) < 300 else TAILS[:4]) + [bytes(rng.getrandbits(8) for _ in range(rng.randint(1, 20)))]:
             rec.add('Unmarshal', P, nt=True, label='tail', **actions.unmarshal(b + t))
+    stale_header_pairs(ctx, P)
     # envelope truth on whatever the decoder accepts
     fuzz_small = list(itertools.islice(fuzz_inputs(ctx, 1), 0, None, 9 if ctx.quick else 2))
     for label, b in fuzz_small:
@@ -2081,6 +2083,42 @@ def conn_sessions(ctx, props):
         deliver('s', True)
         rec.add('ConnQuiesce', props, nt=True, left=len(buf['c']) + len(buf['s']) + len(wire['c']) + len(wire['s']),
                 inflight=len(queue['c']) + len(queue['s']))
+
+
+def stale_header_pairs(ctx, props):
+    """two decodes in a row whose 7-byte headers agree in some fields and differ in others (type / channel / size), the
+    first incomplete, complete or refused: nothing of the first header may survive into the second decode"""
+    import struct
+    import wiregen
+    rec, rng = ctx.rec, ctx.rng
+    idx = 0
+
+    def body_frame(t, ch, n):
+        if t == 3:
+            return wiregen.envelope(3, ch, bytes((i * 5 + n) % 256 for i in range(n)))
+        if t == 8:
+            return wiregen.envelope(8, ch, b'')
+        if t == 1:
+            return wiregen.envelope(1, ch, struct.pack('>HH', 60, 80) + struct.pack('>Q', n) + b'\x00')       # Basic.Ack(n)
+        return wiregen.envelope(2, ch, struct.pack('>HHQH', 60, 0, n, 0x1000) + bytes([n % 10]))                # header, priority
+    for t in (1, 2, 3):
+        for ch in (0, 1, 65535):
+            for n1, n2 in ((5, 9), (9, 5), (5, 300), (300, 5), (20, 21)):
+                a, b = body_frame(t, ch, n1), body_frame(t, ch, n2)
+                other = body_frame(t, ch + 1 if ch < 65535 else 2, n2)
+                for cut in (7, 8, len(a) - 1):
+                    idx += 1
+                    if not mine(ctx, idx):
+                        continue
+                    # (bytes, the valid frame they are a strict prefix of -- or None)
+                    def pre(x, k):
+                        return x[:min(k, len(x) - 1)]
+                    pairs = (((pre(a, cut), a), (b + b'tail', None)), ((pre(a, cut), a), (other, None)), ((a, None), (pre(b, len(a)), b)),
+                             ((a + b'x', None), (b, None)), ((a[:-1] + b'\x00', None), (b, None)), ((pre(b, cut), b), (a[:cut] + b'\xce' * 12, None)),
+                             ((a, None), (pre(b, cut), b)), ((b, None), (pre(a, len(a)), a)), ((pre(a, cut), a), (pre(b, cut + 1), b)))
+                    for (first, f1), (second, f2) in pairs:
+                        rec.add('Unmarshal', props, nt=True, label='stale-1', **actions.unmarshal(first, extra={'full': list(f1)} if f1 else None))
+                        rec.add('Unmarshal', props, nt=True, label='stale-2', **actions.unmarshal(second, extra={'full': list(f2)} if f2 else None))
 
 
 def _with_conn(name):
